@@ -524,7 +524,7 @@ def model_request(ck, ref, argsets, C, huge):
     """per extern call of the program: does the model's vm_ffi_call_cop request fit?  -> list of 'ok'/'argfail i'"""
     if not argsets:
         return []
-    if huge and not ck.thorough:
+    if huge == 'arith' or (huge and not ck.thorough):
         out = []
         for args in argsets:
             pos, res = 6, 'ok'
@@ -542,7 +542,7 @@ def model_reply_kind(ck, ref, spec, C, huge):
     """what does the model's handle_ffi_req answer for this result value?  -> 'result' | 'error' | 'empty' (old code)"""
     if spec is None:
         return 'result'
-    if huge and not ck.thorough:
+    if huge == 'arith' or (huge and not ck.thorough):
         return 'result' if py_size(spec) <= C['COP_REPLY_BIG_BUF'] else 'error'
     out = run_model(ref, ['replykind ' + show(spec)], timeout=1200)
     return out[0].strip()
@@ -616,6 +616,97 @@ extern fn dyn_array_length(a: opaque) -> int
     return ('bigstrings_%dx%d' % (count, slen), src, [[('s', b'x' * slen)]], ('R', count, slen), True)
 
 
+# ------------------------------------------------------------------------------------------------ size residues
+def pipe_capacity():
+    """default capacity of a pipe on this kernel (F_GETPIPE_SZ)"""
+    import fcntl
+    r, w = os.pipe()
+    try:
+        return fcntl.fcntl(w, 1032)
+    except OSError:
+        return 65536
+    finally:
+        os.close(r); os.close(w)
+
+
+def residue_lengths(C):
+    """lengths around every buffer boundary the code has (constants regenerated from the sources by gen_cop.py; the pipe
+    capacity asked from the kernel): for each boundary B and header size h in {0 raw, 5 string header, 8 message header,
+    13 both}: B-h-1, B-h, B+-1 ...; plus page residues k*4096 + r"""
+    bounds = {C['COP_REPLY_STACK_BUF'], C.get('REQ_STACK_BUF', 8192), pipe_capacity(), C.get('COP_REPLY_BIG_INITIAL', 1 << 20)}
+    ls = set()
+    for B in bounds:
+        for h in (0, 5, 8, 13):
+            ls |= {B - h - 1, B - h, B - h + 1}
+        ls |= {B - 1, B, B + 1}
+    for k in (1, 2, 16):
+        for r in (0, 1, 4091, 4092, 4093, 4094, 4095):
+            ls.add(k * 4096 + r)
+    return sorted(l for l in ls if l > 0), sorted(bounds)
+
+
+def prog_strresult(L):
+    """a string of L bytes crosses the pipe twice: as argument of strstr and (match at offset 0) as its result"""
+    src = ('extern fn strlen(s: string) -> int\nextern fn strstr(h: string, n: string) -> string\n' + MAKE +
+           'fn main() -> int {\n    (println "before")\n    let s: string = (make %d)\n    let r: string = (strstr s "x")\n'
+           '    (println (strlen r))\n    (println (== r s))\n    (println "after")\n    return 0\n}\n' % L)
+    return ('resid_str_%d' % L, src, [[('s', b'x' * L), ('s', b'x')], [('s', b'x' * L)]], ('s', b'x' * L))
+
+
+def prog_arrresult(n):
+    src = '''extern fn dyn_array_new(t: int) -> opaque
+extern fn dyn_array_push_int(a: opaque, v: int) -> opaque
+extern fn dyn_array_clone(a: opaque) -> array<int>
+fn main() -> int {
+    (println "before")
+    let h: opaque = (dyn_array_new 1)
+    let mut i: int = 0
+    while (< i %d) {
+        let h2: opaque = (dyn_array_push_int h i)
+        set i (+ i 1)
+    }
+    let r: array<int> = (dyn_array_clone h)
+    (println (array_length r))
+    (println (at r %d))
+    (println "after")
+    return 0
+}
+''' % (n, n - 1)
+    return ('resid_arr_%d' % n, src, [], ('I', n))
+
+
+def prog_errtext(n):
+    """the callee's own error text (function not found) has 38 + n bytes: around the 255-byte error buffers of both sides"""
+    name = 'nosuch_' + 'a' * (n - 7)
+    src = ('extern fn %s(x: int) -> int\nfn main() -> int {\n    (println "before")\n    (println (%s 1))\n    (println "after")\n    return 0\n}\n'
+           % (name, name))
+    return ('resid_err_%d' % (38 + n), src, [], None)
+
+
+def residue_programs(ck, C):
+    ls, bounds = residue_lengths(C)
+    progs = [prog_strresult(L) for L in ls]
+    for B in bounds:
+        if B <= (1 << 16):
+            n = (B - 6) // 9
+            progs += [prog_arrresult(n), prog_arrresult(n + 1)]
+    for n in (100, 214, 215, 216, 217, 218, 219, 220, 230, 250):
+        progs.append(prog_errtext(n))
+    # the protocol bound: string ARGUMENTS around COP_MAX_PAYLOAD (a result that large cannot be asked for: its request is larger);
+    # whether the request fits is predicted by arithmetic on the generated constants (the extracted model needs minutes per
+    # 16M-element list; the two programs at the exact limit are also put to the model in the thorough tier, see e2e_programs)
+    MAXP = C['COP_MAX_PAYLOAD']
+    big = set()
+    for h in (0, 5, 8, 13):
+        big |= {MAXP - h - 1, MAXP - h, MAXP - h + 1}
+    for L in sorted(big - {MAXP - 11, MAXP - 10}):
+        nm, src, argsets, rs = prog_strlen(L)
+        progs.append(('resid_arg_%d' % L, src, argsets, rs, 'arith'))
+    ck.extra['size_residues'] = dict(boundaries=bounds + [MAXP], string_lengths=len(ls), programs=len(progs))
+    return progs
+
+
+
 def e2e_programs(ck, C):
     req, big = C['REQ_BUF_SIZE'], C['COP_REPLY_BIG_BUF']
     sizes = {0, 1, 4091, 8180, 8181, 8182, 8192, 32768, 65536}
@@ -641,6 +732,7 @@ def e2e_programs(ck, C):
         k = (MAXP - 6) // 8005
         progs += [prog_bigstrings(k, 8000), prog_bigstrings(k + 1, 8000)]
     progs.append(PROG_STDOUT)
+    progs += residue_programs(ck, C)
     for i in range(120 if ck.thorough else 30):
         progs.append(rand_program(ck.rng, i))
     return progs
